@@ -1,28 +1,44 @@
 """C18 -- smoothed min/max/abs, friction regularisation, smooth ramp and segment parameter."""
 import json
 import math
+from fractions import Fraction
 
 from vlib import common as C
 
 ID = 'C18'
 READY = True
-LEVEL_TEXT = ('Full: every clause of C18 is a Coq theorem over R about the kernels re-translated from the source on every run '
+LEVEL_TEXT = ('Full over R: every clause of C18 is a Coq theorem over R about the kernels re-translated from the source on every run '
               '(one-sided bound, quarter-width gap, exactness outside the band, symmetry for min; mirrored bounds for max/abs; '
               'friction potential non-negative, convex, below Coulomb, exact offset outside the switch radius; explicit C1 '
-              'derivatives across every switch for min/max/abs/zmax/smooth_linear/friction). Binary64 behaviour is covered by the '
-              'correspondence (generated kernels and proved derivative formulas executed in PrimFloat vs the implementation and jax.grad).')
-TECHNIQUE = 'Coq proof (Reals + Coquelicot) over kernels regenerated from the Python AST; vm_compute/PrimFloat correspondence'
+              'derivatives across every switch for min/max/abs/zmax/smooth_linear/friction). '
+              'BINARY64 (round 4), proved for the PrimFloat instance of the generated min_base/max/abs kernels (the instance executed against '
+              'the implementation), via Flocq (PrimFloat ops = Bplus/Bminus/Bmult/Bdiv, round-to-nearest-even error model from error_N_FLT): '
+              'for all finite x, y, eps with a finite result (shown to force every intermediate finite; underflow covered) '
+              'min(x,y) - s/4 - 3u(|x|+|y|+s) <= min_base x y eps <= min(x,y) + 3u(|x|+|y|+s), u = 2^-53, s = max(eps, fl(1e-14)); '
+              'in the band |result - closed form| <= 3u(|x|+|y|+s); mirrored statements for max and abs; exactness (value = true min) for all finite '
+              'inputs with |x-y| >= eps in exact arithmetic and bit-for-bit where(x<y,x,y) whenever the code\'s band test is false (any float); '
+              'with a NaN argument the result is the second argument (NaN in y propagates, NaN in x is dropped); symmetry at the level of values '
+              '(min_base x y eps and min_base y x eps are finite together and then have the same real value, all finite x, y, eps). The in-band analysis is also '
+              'proved for an abstract rounding operator (relative error u <= 1/1000, absolute error eta, eta*1000 <= u tol^2), which covers '
+              'flush-to-zero arithmetic with eta = 2^-1022 as well. '
+              'NOT PROVED in binary64: friction / zmax / smooth_linear / smoothstep (reals + correspondence only); runs whose result is not finite '
+              '((x-y)**2 overflows inside the band for |x-y| > 1.3e154: the implementation then returns -inf/NaN; counted in the evidence, '
+              'outside the property\'s ten decades); BITWISE symmetry (false for +0/-0 and NaN arguments); the FTZ/DAZ instance of the abstract '
+              'theorem (XLA CPU flushes subnormals inside jit; the binary64 stream therefore uses normal or zero arguments).')
+TECHNIQUE = 'Coq proof (Reals + Coquelicot; Flocq for binary64) over kernels regenerated from the Python AST; vm_compute/PrimFloat correspondence'
 GEN = ['SmoothFunctions', 'Math', 'Friction', 'MortarContact', 'Surface', 'EdgeCpp']
-TARGETS = ['proofs/L_C18.vo', 'proofs/L_C18b.vo', 'proofs/L_C18x.vo', 'model/M_C18.vo']
-COQ_FILES = ['base/Num.v', 'base/Piecewise.v', 'model/M_C18.v', 'proofs/L_C18.v', 'proofs/L_C18b.v', 'proofs/L_C18x.v', 'props/P_C18.v']
+TARGETS = ['proofs/L_C18.vo', 'proofs/L_C18b.vo', 'proofs/L_C18x.vo', 'proofs/L_C18r.vo', 'proofs/L_C18f.vo', 'proofs/L_C18g.vo', 'model/M_C18.vo']
+COQ_FILES = ['base/Num.v', 'base/Piecewise.v', 'model/M_C18.v', 'proofs/L_C18.v', 'proofs/L_C18b.v', 'proofs/L_C18x.v', 'proofs/L_C18r.v', 'proofs/L_C18f.v', 'proofs/L_C18g.v', 'props/P_C18.v']
 TRUSTED = ['Coq 8.16.1 kernel + vm_compute (no native_compute)',
            'tools/vlib/py2coq.py translator (Python ast -> Gallina over Num T), cross-checked by running the generated kernels at binary64 against the implementation',
            'correspondence harness: float<->(mantissa,exponent) exchange, tolerance rule 16 ulp of max(|args|,|value|)',
-           'theorems are over exact reals; binary64 rounding is covered only by the correspondence']
+           'Flocq 4 (IEEE754.PrimFloat: Coq primitive floats = Flocq binary floats under the FloatAxioms specification of Coq\'s stdlib)',
+           'theorems other than the C18_*_binary64_* ones are over exact reals; for those kernels binary64 rounding is covered only by the correspondence']
 ASSUMPTIONS = ['exact real arithmetic in theorems', 'jax.grad of the primitives used is the derivative',
                'smooth_linear is C1 only for 0 < l <= 1/2 (not stated in the source; the library calls it with 1e-7 / 1e-9): for l = 1 it jumps at xi = 1 (C18_smooth_linear_needs_l_le_half_refuted); values for l > 1/2 are still tied to the implementation',
                'C1 clauses need width > safeTol (1e-14); below it the clamp makes the kernel discontinuous (documented domain)']
-RULE = ('second-wave streams: widths at/below the 1e-14 clamp, zero and negative widths; single un-jitted calls vs the batched jit; float32 inputs (bounds at float32 accuracy, dtype preserved); midpoint convexity, gradient monotonicity and tangent lower bound of the friction potential on pairs of slips incl. exactly on the switch circle and at zero slip; d max/dy; EdgeCpp.smoothstep value/derivative on and around 0 and 1; smooth_linear for l > 1/2 (values). All model-vs-implementation comparisons are NaN-safe (a NaN derivative is a mismatch). '
+RULE = ('round-4 binary64 stream: x over 1e-300..1e300 (both signs), widths 1e-305..1e300, y inside the band / 0..3 ulp from x / within 4 ulp either side of the switch / both arguments inside a wide band / unrelated; arguments normal or zero (XLA flushes subnormals); the proved bounds 3u(|x|+|y|+s), exactness for |x-y| >= eps and the NaN clause are evaluated on the implementation outputs in exact rational arithmetic with no extra tolerance; model vs implementation on the same cases. '
+        'second-wave streams: widths at/below the 1e-14 clamp, zero and negative widths; single un-jitted calls vs the batched jit; float32 inputs (bounds at float32 accuracy, dtype preserved); midpoint convexity, gradient monotonicity and tangent lower bound of the friction potential on pairs of slips incl. exactly on the switch circle and at zero slip; d max/dy; EdgeCpp.smoothstep value/derivative on and around 0 and 1; smooth_linear for l > 1/2 (values). All model-vs-implementation comparisons are NaN-safe (a NaN derivative is a mismatch). '
         'inputs: seeded random arguments over ten decades of magnitude and width, plus streams placed exactly on, and one ulp '
         'either side of, every branch switch (dyadic so both sides are exact); a case is non-trivial when it lies inside a '
         'smoothing band or within 2 ulp of a switch; distinct = distinct argument tuples')
@@ -117,7 +133,36 @@ def gen_cases(ctx):
         mode = r.randrange(6)
         ss.append(r.uniform(0, 1) if mode == 0 else r.uniform(-2, 3) if mode == 1 else r.choice([0.0, 1.0, -0.0]) if mode == 2 else
                   nextafter(r.choice([0.0, 1.0]), r.random() < 0.5) if mode == 3 else r.choice([-1, 1]) * 10.0 ** r.uniform(-12, 3) if mode == 4 else 1.0 + r.uniform(-1, 1) * 1e-9)
-    return dict(two=two, one=one, fr=fr, sl=sl, tiny=tiny, slbig=slbig, ss=ss)
+    return dict(two=two, one=one, fr=fr, sl=sl, tiny=tiny, slbig=slbig, ss=ss, wide=gen_wide(ctx))
+
+
+def gen_wide(ctx):
+    """binary64 stream for the rounding-aware theorems (C18_min_binary64_bounds etc.): magnitudes 1e-300..1e300, widths 1e-305..1e300
+    (so |x|/eps from 1e-600 to 1e600: catastrophic-cancellation range, underflow range, near overflow), y placed inside the band, a few
+    ulps from x, a few ulps either side of the switch, and both arguments inside a wide band.  Own rng stream."""
+    r = ctx.rng('wide')
+    wide = []
+    for _ in range(ctx.n(300, 4000)):
+        x = r.choice([-1, 1]) * 10.0 ** r.uniform(-300, 300) * r.uniform(1, 10)
+        eps = 10.0 ** (r.uniform(-305, 150) if r.random() < 0.85 else r.uniform(150, 300))   # (x-y)**2 overflows beyond 1.3e154
+        mode = r.randrange(5)
+        if mode == 0:
+            y = x + eps * r.uniform(-1, 1)
+        elif mode == 1:
+            y = x * (1 + r.choice([-1, 1]) * r.choice([0, 1, 2, 3]) * 2.0 ** -52)
+        elif mode == 2:
+            y = x + eps * r.choice([-1, 1]) * (1 + r.uniform(-4, 4) * 2.0 ** -52)
+        elif mode == 3:
+            x = eps * r.uniform(-1, 1)
+            y = eps * r.uniform(-1, 1)
+        else:
+            y = r.choice([-1, 1]) * 10.0 ** r.uniform(-300, 300)
+        # XLA's CPU backend flushes subnormal numbers to zero (FTZ/DAZ) inside jitted code, so subnormal ARGUMENTS are not IEEE
+        # inputs for the implementation; keep x, y zero or normal and eps normal (intermediates may still underflow)
+        normal = lambda v: v == 0.0 or abs(v) >= 2.2250738585072014e-308
+        if math.isfinite(x) and math.isfinite(y) and normal(x) and normal(y) and normal(eps):
+            wide.append((x, y, eps))
+    return wide
 
 
 def impl_eval(cases):
@@ -155,6 +200,9 @@ def impl_eval(cases):
     out['tmax'] = jax.jit(jax.vmap(S.max))(tiny[:, 0], tiny[:, 1], tiny[:, 2])
     slb = jnp.array(cases['slbig'])
     out['slbig'] = v2(MortarContact.smooth_linear, slb)
+    wide = jnp.array(cases['wide'])
+    out['wmin'] = jax.jit(jax.vmap(S.min))(wide[:, 0], wide[:, 1], wide[:, 2])
+    out['wmax'] = jax.jit(jax.vmap(S.max))(wide[:, 0], wide[:, 1], wide[:, 2])
     from optimism.contact import EdgeCpp
     ss = jnp.array(cases['ss'])
     out['sstep'] = jax.jit(jax.vmap(EdgeCpp.smoothstep))(ss)
@@ -252,6 +300,23 @@ def extra_conclusions(ctx, cases, impl):
         n += 1
         for b in concl_two(x, y, e, impl['tmin'][i], impl['tmax'][i]):
             ctx.fail('conclusion', 'smooth min/max at the width clamp x=%r y=%r eps=%r: %s' % (x, y, e, b), case=dict(fn='minmax', x=x, y=y, eps=e), concrete=True)
+    # (f) binary64 stream: proved rounding-aware bounds, exact rational evaluation, wide magnitude range
+    ninband = nover = 0
+    for i, (x, y, e) in enumerate(cases['wide']):
+        n += 1
+        vmin, vmax = impl['wmin'][i], impl['wmax'][i]
+        if not (math.isfinite(vmin) and math.isfinite(vmax)):
+            nover += 1
+        if abs(Fraction(x) - Fraction(y)) < Fraction(e):
+            ninband += 1
+        for b in concl_wide(x, y, e, vmin, vmax):
+            ctx.fail('conclusion', 'smooth min/max x=%r y=%r eps=%r: %s' % (x, y, e, b), case=dict(fn='wide64', x=x, y=y, eps=e, min=vmin, max=vmax), concrete=True)
+    ctx.count('binary64_stream_cases', len(cases['wide']))
+    ctx.count('binary64_stream_inside_band', ninband)
+    ctx.count('binary64_stream_overflowed_results', nover)
+    for (x, y, e, v) in nan_clause():
+        ctx.fail('conclusion', 'NaN clause (result = second argument when an argument is NaN) fails: min(%r,%r,%r) = %r' % (x, y, e, v), case=dict(fn='nan', x=repr(x), y=repr(y), eps=e), concrete=True)
+    n += 4
     # (e) smoothstep: range and monotone on the implementation
     for i, x in enumerate(cases['ss']):
         n += 1
@@ -283,6 +348,9 @@ def model_exprs(cases, kernels=True):
         ex.append('fencs [%s]' % K('smooth_linear %s %s' % (C.cf(xi), C.cf(l))))
     for x in cases['ss']:
         ex.append('fencs [%s; d_sstep %s]' % (K('smoothstep ' + C.cf(x)), C.cf(x)))
+    for (x, y, e) in cases['wide']:
+        a = '%s %s %s' % (C.cf(x), C.cf(y), C.cf(e))
+        ex.append('fencs [%s; %s]' % (K('s_min ' + a), K('s_max ' + a)))
     return ex
 
 
@@ -316,6 +384,50 @@ def concl_two(x, y, e, vmin, vmax):
         bad.append('max above true max by more than width/4: gap %.3g' % (vmax - hi))
     if abs(x - y) >= e and vmax != hi:
         bad.append('max not exact outside the band')
+    return bad
+
+
+U64 = Fraction(1, 2 ** 53)
+TOL64 = Fraction(1e-14)      # the binary64 value of safeTol (tol64 of proofs/L_C18f.v)
+
+
+def concl_wide(x, y, e, vmin, vmax):
+    """conclusions of C18_min_binary64_bounds / C18_max_binary64_bounds / C18_min_binary64_exact_outside evaluated in EXACT rational
+    arithmetic on the implementation's outputs (no tolerance beyond the proved 3 u (|x|+|y|+s)); results that overflowed are outside
+    the theorems (hypothesis: finite result) and are only counted."""
+    bad = []
+    X, Y, E = Fraction(x), Fraction(y), Fraction(e)
+    s = max(E, TOL64)
+    slack = 3 * U64 * (abs(X) + abs(Y) + s)
+    lo, hi = min(X, Y), max(X, Y)
+    if math.isfinite(vmin):
+        V = Fraction(vmin)
+        if not V <= lo + slack:
+            bad.append('binary64 one-sided bound: min exceeds the true min by %.3g > 3u(|x|+|y|+s) = %.3g' % (float(V - lo), float(slack)))
+        if not lo - s / 4 - slack <= V:
+            bad.append('binary64 tightness: min below true min - s/4 by %.3g > 3u(|x|+|y|+s) = %.3g' % (float(lo - s / 4 - V), float(slack)))
+        if E <= abs(X - Y) and V != lo:
+            bad.append('binary64 exactness outside the band (|x-y| >= eps exactly): min = %r, true min %r' % (vmin, float(lo)))
+    if math.isfinite(vmax):
+        V = Fraction(vmax)
+        if not hi - slack <= V:
+            bad.append('binary64 one-sided bound: max below the true max by %.3g > 3u(|x|+|y|+s) = %.3g' % (float(hi - V), float(slack)))
+        if not V <= hi + s / 4 + slack:
+            bad.append('binary64 tightness: max above true max + s/4 by %.3g > 3u(|x|+|y|+s) = %.3g' % (float(V - hi - s / 4), float(slack)))
+        if E <= abs(X - Y) and V != hi:
+            bad.append('binary64 exactness outside the band (|x-y| >= eps exactly): max = %r, true max %r' % (vmax, float(hi)))
+    return bad
+
+
+def nan_clause():
+    """C18_min_binary64_nan on the implementation: with a NaN argument the result is the second argument"""
+    from optimism import SmoothFunctions as S
+    nan = float('nan')
+    bad = []
+    for (x, y, e) in ((nan, 1.0, 0.1), (nan, -3.0, 1e-20), (2.0, nan, 0.5), (nan, nan, 1.0)):
+        v = float(S.min(x, y, e))
+        if not ((v != v and y != y) or v == y):
+            bad.append((x, y, e, v))
     return bad
 
 
@@ -464,6 +576,19 @@ def correspondence(ctx, model_ok):
         cmp('smoothstep', (x,), v[0], impl['sstep'][i], 1.0)
         if far(v[1], impl['dsstep'][i], 64 * math.ulp(1.0)):
             ctx.fail('correspondence', 'proved derivative d_smoothstep(%r) = %r but jax.grad gives %r' % (x, v[1], impl['dsstep'][i]), case=dict(fn='dsstep', x=x), concrete=True)
+    for i, (x, y, e) in enumerate(cases['wide']):
+        v = C.dec_floats(res[k]); k += 1
+        sc = max(abs(x), abs(y), e, 1e-14)
+        if math.isfinite(impl['wmin'][i]) and math.isfinite(v[0]):
+            cmp('min (binary64 stream)', (x, y, e), v[0], impl['wmin'][i], sc)
+        if math.isfinite(impl['wmax'][i]) and math.isfinite(v[1]):
+            cmp('max (binary64 stream)', (x, y, e), v[1], impl['wmax'][i], sc)
+        if model_ok and (math.isfinite(impl['wmin'][i]) != math.isfinite(v[0]) or math.isfinite(impl['wmax'][i]) != math.isfinite(v[1])):
+            # overflow must happen on both sides or on neither, except within rounding of the overflow threshold
+            if not max(abs(x), abs(y), e) > 1e307:
+                mism += 1
+                ctx.fail('correspondence', 'model and implementation disagree on overflow at %r: model %r, implementation %r' % ((x, y, e), v, (impl['wmin'][i], impl['wmax'][i])),
+                         case=dict(fn='wide64', x=x, y=y, eps=e))
     ctx.count('model_vs_impl_comparisons', k)
     ctx.count('model_vs_impl_mismatches', mism)
 
@@ -510,6 +635,10 @@ def replay(ctx, path):
     bad = []
     if case.get('fn') == 'minmax':
         bad = concl_two(case['x'], case['y'], case['eps'], float(S.min(case['x'], case['y'], case['eps'])), float(S.max(case['x'], case['y'], case['eps'])))
+    elif case.get('fn') == 'wide64':
+        bad = concl_wide(case['x'], case['y'], case['eps'], float(S.min(case['x'], case['y'], case['eps'])), float(S.max(case['x'], case['y'], case['eps'])))
+    elif case.get('fn') == 'nan':
+        bad = nan_clause()
     elif case.get('fn') == 'abszmax':
         bad = concl_one(case['x'], case['eps'], float(S.abs(case['x'], case['eps'])), float(S.zmax(case['x'], case['eps'])))
     elif case.get('fn') == 'friction':
